@@ -38,6 +38,8 @@ pub enum VecState {
     Spare,
     /// two sentinel values already in it, no spare capacity
     Prefilled,
+    /// `Vec::with_capacity(1)`: some spare capacity, less than the backlog
+    Tight,
 }
 
 #[derive(Clone, Copy, Debug, PartialEq, Eq, Hash, PartialOrd, Ord, Serialize, Deserialize)]
@@ -74,6 +76,8 @@ pub enum Op {
     /// poll the future / stream in the slot once with counting waker w (0/1)
     Poll(u8, u8),
     /// drive the stream in the slot to its next item on the executor
+    /// (slot | REPOLL: the first Pending poll is followed at once by a poll
+    /// with a different waker, as in the *Repoll ops)
     StreamNext(u8),
     FDrop(u8),
     /// `FusedStream::is_terminated` of the stream in the slot
@@ -86,6 +90,11 @@ pub enum Op {
     DropHandle(Side),
     /// the handle is dropped while its thread is unwinding from a panic
     DropHandleUnwinding(Side),
+    /// `clone_from`: a handle of a *second*, auxiliary channel is overwritten
+    /// with a clone of the current handle (and becomes the thread's new top
+    /// handle); the result is the auxiliary channel's count of that side
+    /// afterwards, which must be 0
+    CloneFrom(Side),
     // ---- observers, through a handle of the given side
     Len(Side),
     IsEmpty(Side),
@@ -109,6 +118,9 @@ pub enum Op {
     /// try_lock(); critical section and unlock if acquired
     LockT,
 }
+
+/// flag in the slot of `StreamNext`
+pub const REPOLL: u8 = 0x80;
 
 impl Op {
     pub fn is_send_like(&self) -> bool {
@@ -150,7 +162,7 @@ impl Op {
             return Some(Side::R);
         }
         match self {
-            Close(s) | NewHandle(s, _) | DropHandle(s) | DropHandleUnwinding(s) | Len(s) | IsEmpty(s) | IsFull(s) | Cap(s)
+            Close(s) | NewHandle(s, _) | CloneFrom(s) | DropHandle(s) | DropHandleUnwinding(s) | Len(s) | IsEmpty(s) | IsFull(s) | Cap(s)
             | IsBounded(s) | SCount(s) | RCount(s) | IsClosed(s) | IsDisc(s) => Some(*s),
             IsTerm => Some(Side::R),
             _ => None,
